@@ -205,7 +205,7 @@ def _scan_enum(cur, relpath, name):
 
 _RE_FUNCTION = re.compile(r"function varargout = (\w+)\(varargin\)")
 _RE_FUNC_IF = re.compile(r"(if|elseif) length\(varargin\) == (\d+)(.*)")
-_RE_FUNC_CALL = re.compile(_VARARGOUT + r"(\w+)\((\d+), varargin\{:\}\);")
+_RE_FUNC_CALL = re.compile(_VARARGOUT + r"(\w+)\((-?\d+), varargin\{:\}\);")
 
 
 def _scan_function(cur, relpath):
@@ -256,16 +256,16 @@ _RE_CTOR_IF_PLAIN = re.compile(r"if nargin == 2" + _CTOR_TAIL)
 _RE_CTOR_IF_VIRTUAL = re.compile(
     r"if \(nargin == 2 \|\| \(nargin == 3 && strcmp\(varargin\{3\}, 'void'\)\)\)"
     + _CTOR_TAIL)
-_RE_CTOR_UPCAST = re.compile(r"my_ptr = (\w+)\((\d+), varargin\{2\}\);")
-_RE_CTOR_COLLECTOR = re.compile(r"(base_ptr = )?(\w+)\((\d+), my_ptr\);")
+_RE_CTOR_UPCAST = re.compile(r"my_ptr = (\w+)\((-?\d+), varargin\{2\}\);")
+_RE_CTOR_COLLECTOR = re.compile(r"(base_ptr = )?(\w+)\((-?\d+), my_ptr\);")
 _RE_CTOR_ELSEIF = re.compile(r"elseif nargin == (\d+)(.*)")
 _RE_CTOR_CALL = re.compile(
-    r"(my_ptr|\[ my_ptr, base_ptr \]) = (\w+)\((\d+)((?:, varargin\{\d+\})*)\);")
+    r"(my_ptr|\[ my_ptr, base_ptr \]) = (\w+)\((-?\d+)((?:, varargin\{\d+\})*)\);")
 _RE_CTOR_BASE = re.compile(
     r"obj = obj@(\S.*?)\(uint64\(" + _MAGIC + r"\), base_ptr\);")
 _RE_CTOR_ASSIGN = re.compile(r"obj\.(\w+) = my_ptr;")
 
-_RE_DELETE_CALL = re.compile(r"(\w+)\((\d+), obj\.(\w+)\);")
+_RE_DELETE_CALL = re.compile(r"(\w+)\((-?\d+), obj\.(\w+)\);")
 
 _DISPLAY_LINES = (
     "function display(obj), obj.print(''); end",
@@ -279,12 +279,12 @@ _RE_STATIC_HEADER = re.compile(r"function varargout = (\w+)\(varargin\)")
 _RE_USAGE = re.compile(r"% (\S+) usage: (\w+)\((.*)\) : returns (.*)")
 _RE_METHOD_IF = re.compile(r"if length\(varargin\) == (\d+)(.*)")
 _RE_METHOD_CALL = re.compile(
-    _VARARGOUT + r"(\w+)\((\d+), this, varargin\{:\}\);")
+    _VARARGOUT + r"(\w+)\((-?\d+), this, varargin\{:\}\);")
 
 _RE_GETTER_HEADER = re.compile(r"function varargout = get\.(\w+)\(this\)")
-_RE_GETTER_CALL = re.compile(r"varargout\{1\} = (\w+)\((\d+), this\);")
+_RE_GETTER_CALL = re.compile(r"varargout\{1\} = (\w+)\((-?\d+), this\);")
 _RE_SETTER_HEADER = re.compile(r"function set\.(\w+)\(this, value\)")
-_RE_SETTER_CALL = re.compile(r"(\w+)\((\d+), this, value\);")
+_RE_SETTER_CALL = re.compile(r"(\w+)\((-?\d+), this, value\);")
 
 _SAVEOBJ_LINES = (
     "function sobj = saveobj(obj)",
